@@ -178,9 +178,14 @@ pub struct Big {
 
 /// Messages with this tag cannot be serialized (the codec is allowed to fail).
 pub const UNSERIALIZABLE_TAG: u8 = 3;
+/// The message with this tag (and nothing else in it) is encoded as zero bytes.
+pub const EMPTY_TAG: u8 = 4;
 fn ser(b: &Big) -> Result<Vec<u8>, String> {
     if b.m.tag == UNSERIALIZABLE_TAG {
         return Err("this message cannot be serialized".to_string());
+    }
+    if b.m.tag == EMPTY_TAG && b.m.who.is_none() && b.blob.is_empty() {
+        return Ok(Vec::new());
     }
     let mut v = serde_json::to_vec(&b.m).map_err(|e| e.to_string())?;
     v.push(b'\n');
@@ -188,6 +193,9 @@ fn ser(b: &Big) -> Result<Vec<u8>, String> {
     Ok(v)
 }
 fn de(b: &[u8]) -> Result<Big, String> {
+    if b.is_empty() {
+        return Ok(Big { m: M { tag: EMPTY_TAG, who: None }, blob: Vec::new() });
+    }
     let cut = b.iter().position(|x| *x == b'\n').ok_or_else(|| "no header".to_string())?;
     let m: M = serde_json::from_slice(&b[..cut]).map_err(|e| e.to_string())?;
     Ok(Big { m, blob: b[cut + 1..].to_vec() })
@@ -216,7 +224,7 @@ pub fn gen_s3(seed: u64) -> S3Scenario {
     let mut g = SysGen::default();
     g.max_actors = 4;
     g.states = rng.range(1, 3) as u8;
-    g.tags = rng.range(1, 4) as u8;
+    g.tags = rng.range(1, 5) as u8;
     g.timers = rng.range(1, 3) as u8;
     g.randoms = 2;
     g.use_timers = rng.chance(4, 5);
@@ -393,6 +401,7 @@ pub fn judge(sc: &S3Scenario, obs: &S3Obs) -> (Vec<Violation>, Counters) {
                         h.push(b'\n');
                         h
                     };
+                    let head = if *tag == EMPTY_TAG && who.is_none() && *blob_len == 0 { Vec::new() } else { head };
                     let mut hh = dig_more(0xcbf2_9ce4_8422_2325, &head);
                     for _ in 0..*blob_len {
                         hh = (hh ^ b'z' as u64).wrapping_mul(0x0000_0100_0000_01b3);
